@@ -28,4 +28,15 @@ MUTANTS = [
         crc = crc16_octet(crc, (*buffer) & 0xffu);"""),
     dict(prop="C16", name="buffer-initial-ffff", file="src/crc-16-arc.c",
          old="    return ufw_crc16_arc_u16(CRC16_ARC_INITIAL, buffer, len);", new="    return ufw_crc16_arc_u16(len > 40 ? 1 : CRC16_ARC_INITIAL, buffer, len);"),
+    # ---- C14
+    dict(prop="C14", name="D21-buffer-end-ignored", file="src/variable-length-integer.c",
+         old="        if (i >= rest) {", new="        if (i >= rest + 99) {"),
+    dict(prop="C14", name="decode-loop-bound", file="src/variable-length-integer.c",
+         old="    for (size_t i = 0u; i < maxoctets; ++i) {\n        if (i >= rest) {", new="    for (size_t i = 0u; i <= maxoctets; ++i) {\n        if (i >= rest) {"),
+    dict(prop="C14", name="source-mask-ff", file="src/variable-length-integer.c",
+         old="        const unsigned char bits = data & VARINT_DATA_MASK;", new="        const unsigned char bits = data & 0xffu;"),
+    dict(prop="C14", name="s32-sign-extended-encode", file="src/variable-length-integer.c",
+         old="    return varint_encode(data.u & UINT32_MAX, b);", new="    return varint_encode(data.u, b);"),
+    dict(prop="C14", name="length-off-at-boundary", file="src/variable-length-integer.c",
+         old="    return varint_u64_length((uint64_t)n);", new="    return varint_u64_length((uint64_t)n) + (n == 0x10000000u);"),
 ]
